@@ -14,9 +14,13 @@ PROPERTY = "C09"
 LEVEL_TEXT = ("Lean theorems over Model/Shm.lean: content (granted get => the segment has the granted size and holds the writer's bytes, via the invariant "
               "in_memory/created => segment, on_disk => file, transitional => the one the pending job has not consumed yet; proved for all histories of "
               "the _partial class, counterexample c09_content_full_fails outside it), get answers wait before the writer's close and during page-out/in "
-              "(every state), winners of page_out_at_least are is_pageoutable and a dataset with a reader younger than STALE_READ is untouched (every "
-              "state), purge during a read only sets delayed_purge and the last reader's close executes it (every state), lock discipline "
-              "pageout_all held <=> pageout_count > 0 = number of pending page-out jobs after EVERY history (true only with the fix), eventual grant. "
+              "(every state), the ghost 'wrote' is set by the writer's create-and-write step and by no other step, winners of page_out_at_least are "
+              "is_pageoutable and a dataset with a reader younger than STALE_READ is untouched by it (every state) and by EVERY step of every client "
+              "and disk job except that reader's own close (all invariant states), purge during a read only sets delayed_purge and the last "
+              "reader's close executes it (every state), lock discipline "
+              "pageout_all held <=> pageout_count > 0 = number of pending page-out jobs after EVERY history (true only with the fix), eventual grant (quiescent reachable state, "
+              "size <= capacity and <= free + evictable: add is granted at once or after the launched page-outs completed; composes lock "
+              "discipline, 'the lottery frees enough', 'one job per winner', 'a completed page-out returns its size'). "
               "Unbounded histories, keys, clients; tied to the real Manager by a step-by-step correspondence check.")
 LEVEL_NOTE = ("modelled, not verified: as C08. The history-level reading of 'not readable before the writer finished' has a known exception (a writer older "
               "than STALE_CREATE is treated as dead: known finding C09-stale-writer-readable); purge requests racing an in-flight disk job are the excluded "
